@@ -7,6 +7,7 @@ PROP_MODULES = {
     "C08": ["contracts.c09_split", "contracts.c08_wiring"],
     "C09": ["contracts.c09_split", "contracts.c18_dastdp"],
     "C10": ["contracts.c10_updater"],
+    "C13": ["contracts.c13_resize"],
     "C18": ["contracts.c18_dastdp"],
     "C20": ["contracts.c20_numeric"],
 }
